@@ -77,7 +77,7 @@ func (r *Server) GetSuccessors(_ context.Context, _ *protocol.GetSuccessorsReque
 func (r *Server) GetPredecessor(_ context.Context, _ *protocol.GetPredecessorRequest) (*protocol.GetPredecessorResponse, error) {
 	vnode, err := r.LocalNode.GetPredecessor()
 	if err != nil {
-		return nil, err
+		return nil, rpc.WrapError(err)
 	}
 	var pre *protocol.Node
 	if vnode != nil {
